@@ -399,6 +399,11 @@ def c20_isolation(r, seed, tier, model_ok):
     for t in ["ㅂ ((ㅂ ㅅ ㅂㅎㄷ) (ㅂ ㄱ ㅅㅈㅎㄷ) ㄷㅎㄷ) ㅎㄴ", "ㅂ ㅅ ㅂ ㅂㅎㄹ ㅂ ㅅ ㅂㄹ ㄱ ㅂㅎㅁ ㅎㄴ", "ㄱ ((ㅂ ㅂㄷ ㅂㅎㄷ) (ㄱ ㄴ ㅅㅈㅎㄷ) ㄷㅎㄷ) ㅎㄴ", "ㄹ ㅂ (ㅂ ㅂㄷ ㄱ ㅂㅎㄹ) ㅎㄷ",
               "ㄱ ((ㅂ ㅅ ㅂㄹ ㅂㅎㄹ) (ㄱ ㄴ ㅅㅈㅎㄷ) ㄷㅎㄷ) ㅎㄴ", "ㄷ ㅅㅅㅎㄴ ㅂ ㅅ ㅂㄹ ㄱ ㅂㅎㅁ ㅎㄴ", "ㄴ ((ㄴ ㄷ ㅅㅈㅎㄷ) (ㄴ ㄹ ㅅㅈㅎㄷ) ㄷㅎㄷ) ㅎㄴ", "ㅂ ㅂ ㅂㅎㄷ ㅂ ㅂ ㅂㅎㄷ ㄴㅎㄷ",
               "(ㄱㅇㄱ (ㄴ ㅁ ㅅㅈㅎㄷ) ㄷㅎㄷ ㄱㅇㄱ ㅁㄹㅎㄷ ㅎ) (ㄴ ㄷ ㅅㅈㅎㄷ) ㅎㄴ ㅁㅈ ㅁㄷㅎㄷ" ] * 2: progs.append(dict(text=t))
+    # a long-lived dictionary (a built-in module's table) as the FIRST operand of several sums with different right operands, the whole result
+    # printed: what one evaluation added must not be there in the next
+    for mod_ in ("(ㅂ ㅂㄷ ㅂㅎㄷ)", "(ㅂ ㅅ ㅂㄹ ㅂㅎㄹ)"):
+        for k_, v_ in ((3, 1), (6, 2), (9, 4), (-1, 0), (3, 7)):
+            progs += [dict(text=f"{mod_} ({E(k_)} {E(v_)} ㅅㅈㅎㄷ) ㄷㅎㄷ"), dict(text=f"{mod_} ({E(k_)} {E(v_)} ㅅㅈㅎㄷ) ({E(k_ + 20)} {E(v_)} ㅅㅈㅎㄷ) ㄷㅎㄹ"), dict(text=f"{E(k_)} ({mod_} (ㅅㅈㅎㄱ) ㄷㅎㄷ) ㅎㄴ")]
     # ill-typed calls: built-ins that check several arguments at once, given 2-3 arguments of DIFFERENT kinds - the message names what it was given
     ATOMS = ["ㄷ", "(ㄷ ㅅㅅㅎㄴ)", "(ㄷ ㅁㅈㅎㄴ)", "(ㅂㄱㅎㄱ)", "(ㅈㅈㅎㄱ)", "(ㄴ ㄷ ㅁㄹㅎㄷ)", "(ㄴ ㄷ ㅅㅈㅎㄷ)", "(ㄱㅇㄱ ㅎ)", "(ㄴ ㄷㅂㅎㄴ)", "(ㄱ ㄱㅅㅎㄴ)", "(ㄷ ㅁㅈㅎㄴ ㄱ ㄴ ㅂ ㅂ ㅂㅎㄷ ㅎㄷ ㅎㄴ)"]
     OPS = ["ㅈ", "ㄴㄴ", "ㄴㅁ", "ㅅ", "ㄷ", "ㄱ", "ㄴ", "ㅁㅈ", "ㅂㅈ", "ㅅㄹ", "ㅁㄷ", "ㅅㅂ", "ㅈㄷ", "ㅈㄹ", "ㄱㄹ", "ㅅㅅ", "ㅈㅅ", "ㅂㄹ", "ㄱㄴ", "(ㅂ ㅂㄷ ㄱ ㅂㅎㄹ)", "(ㅂ ㅂㄷ ㄷ ㅂㅎㄹ)", "(ㅂ ㅂㄷ ㅂ ㅂㅎㄹ)", "(ㅂ ㅅ ㅂㄹ ㄱ ㅂㅎㅁ)", "(ㅂ ㅅ ㄱㅅ ㅂㅎㄹ)", "(ㅂ ㅅ ㅈㄱ ㅂㅎㄹ)"]
